@@ -40,6 +40,15 @@ META = {
 LEDGERS = ("slotSecondsUsed", "slotTaskUsage", "scoreboard")
 
 
+def _signed_terms(e, sign=1):
+    """additive terms of an expression with their signs"""
+    if isinstance(e, ast.BinOp) and isinstance(e.op, ast.Add):
+        return _signed_terms(e.left, sign) + _signed_terms(e.right, sign)
+    if isinstance(e, ast.BinOp) and isinstance(e.op, ast.Sub):
+        return _signed_terms(e.left, sign) + _signed_terms(e.right, -sign)
+    return [(sign, e)]
+
+
 def run(ctx: Ctx):
     repo = ctx.repo
     book = repo.func("ResourceScenario.book")
@@ -233,6 +242,14 @@ def run(ctx: Ctx):
                 continue
             d = data(atoms)
             ok = "field:slotTaskUsage" in d or "call:book" in d
+            # every amount that is subtracted from the slot total must be what this task had booked
+            if ok and val is not None:
+                fdx = ctx.dep.of(fn)
+                for sign, term in _signed_terms(val):
+                    if sign < 0:
+                        td = data(fdx.deps_of(term))
+                        if not ("field:slotTaskUsage" in td or "call:book" in td):
+                            ok = False
             ctx.ob("R01.3", f"{fn.qual}: {norm(node.ast)[:90]}", (fn, node.ast), ok,
                    "lowering write depends on the seconds this task had booked" if ok else
                    "the slot total is rewritten from the slot length and the used fraction only; the seconds this task had "
